@@ -375,15 +375,22 @@ example : exMod.wf ∧ exMod.natural ∧ attrLate exMod.attrs = none ∧
   · simp [Module.wf, inspected, attrExprs, exMod]
   · simp [Module.natural, exMod, natural, L]
 
-/-- FINDING (open): `[is_signed: 1 == 1]` is accepted by the validator and raises later
-("Duplicate attribute"); and the array-parameter read is reachable when the location is
-synthetic (model only: user-written parameters never are). -/
+/-- `[is_signed: 1 == 1]` is accepted (formerly: "Duplicate attribute" assertion, fixed); the
+array-parameter read is still reachable when the location is synthetic (model only:
+user-written parameters never are). -/
 theorem C13_total_counterexample :
     run { exMod with
       exprs := exMod.exprs ++ [(0, .bin (L 12) .eq (.num (L 13)) (.num (L 14)))],
       attrs := [⟨0, L 11, .boolConst, true, .expr (.bin (L 12) .eq (.num (L 13)) (.num (L 14))), none⟩] }
-      = .crashed .attrSignedNotLiteral ∧
+      = .accepted ∧
     run { exMod with params := [⟨0, ⟨1, true⟩, .array⟩] } = .crashed .paramTypeNone := by decide
+
+/-- `$present(p)` of a runtime parameter is reported ("must be a field"; formerly accepted by
+the type checker and raising in expression_bounds, fixed); of a field it is a boolean. -/
+example :
+    (tc 0 (.fn (L 1) .present [.lparam (L 2) .int])).errs = [⟨L 2, 0, .mustField 0, []⟩] ∧
+    (tc 0 (.fn (L 1) .present [.lphys (L 2) .opaque])).errs = [] ∧
+    (tc 0 (.fn (L 1) .present [.lphys (L 2) .opaque])).ty = .bool := by decide
 
 /-- The formerly raising inputs are now reported (pass 1, visible): `Foo.p` for a parameter,
 an array parameter used in arithmetic, `(true < 1) == true`, `$next` in a `[requires]`. -/
